@@ -257,6 +257,12 @@ Section Locs.
     apply Forall_snoc; [exact Hn|]. cbn [snd]. apply vi_ok_intro; cbn; auto. constructor.
   Qed.
 
+  Lemma note_G_ok : forall p k s, locs_exp k = true -> st_ok s -> st_ok (note_G p k s).
+  Proof.
+    intros p k s Hk Hs. unfold note_G. destruct p; try exact Hs. destruct k; try exact Hs.
+    destruct (_ && _); [|exact Hs]. apply note_nodefine_ok; [|exact Hs]. cbn [locs_exp] in Hk. exact Hk.
+  Qed.
+
   Lemma push_scope_ok : forall fid s, st_ok s -> st_ok (push_scope fid [] s).
   Proof.
     intros fid s [He Hg Hn]. constructor; cbn [push_scope env globs nodefs]; auto.
@@ -393,17 +399,33 @@ Section Locs.
         inv_bind H. pose proof (ce_nil_ok _ _ _ Hp Hs Hb) as Hs1.
         inv_bind H. pose proof (ce_nil_ok _ _ _ Hk Hs1 Hb0) as Hs2.
         destruct (negb (simple_str (exp_name t2))); [ok_inj H; exact Hs2|].
+        assert (Hkl : P (if loc_initial (exp_loc t2) then l else exp_loc t2) = true).
+        { destruct (loc_initial (exp_loc t2)); [exact Hl | apply locs_exp_loc; exact Hk]. }
+        destruct (beq_bytes (exp_name t1) (c_bang :: Symbols.s_G)).
+        { (* _G.key = v *)
+          destruct (find_global (exp_name t2) flv slv _ (globs a0)) as [v|].
+          - ok_inj H. destruct (v_empty v && _); [|exact Hs2].
+            apply update_var_ok; [|exact Hs2]. intros [l0 f s1 p g r0 e0] Hv.
+            apply vi_ok_unfold in Hv. apply vi_ok_intro; tauto.
+          - ok_inj H. destruct Hs2 as [He Hg Hn]. constructor; cbn [env globs nodefs]; auto.
+            apply (assoc_set_Forall vi_ok); [exact Hg|]. apply vi_ok_intro; auto. }
         destruct (split_dot (exp_name t1)) as [|p0 ps]; [ok_inj H; exact Hs2|].
         destruct (negb (forallb simple_str ps)); [ok_inj H; exact Hs2|].
-        assert (Hma : forall v, vi_ok v ->
-                   vi_ok (member_assign (ps ++ [exp_name t2]) 1 (table_loc_list (EIndex t1 t2 l))
+        assert (Hll : Forall (fun l0 => P l0 = true) (table_loc_list (EIndex t1 t2 l))).
+        { apply locs_table_loc_list. cbn [locs_exp]. rewrite Hl, Hp, Hk. reflexivity. }
+        assert (Hma : forall keys locl v, Forall (fun l0 => P l0 = true) locl -> vi_ok v ->
+                   vi_ok (member_assign keys 1 locl
                                         (if loc_initial (exp_loc t2) then l else exp_loc t2) (mkNM ofn sub oe) v)).
-        { intros v Hv. apply member_assign_ok; auto.
-          - apply locs_table_loc_list. cbn [locs_exp]. rewrite Hl, Hp, Hk. reflexivity.
-          - destruct (loc_initial (exp_loc t2)); [exact Hl | apply locs_exp_loc; exact Hk]. }
-        destruct (find_loc_var (env a0) (trim_bang p0) _ 0) as [[[d i] v]|].
-        + ok_inj H. apply update_var_ok; assumption.
-        + destruct (find_global (trim_bang p0) flv slv _ (globs a0)); ok_inj H; apply update_var_ok; assumption.
+        { intros keys locl v Hlocl Hv. apply member_assign_ok; auto. }
+        destruct (if beq_bytes (trim_bang p0) Symbols.s_G then ps else []) as [|g0 gs].
+        + destruct (find_loc_var (env a0) (trim_bang p0) _ 0) as [[[d i] v]|].
+          * ok_inj H. apply update_var_ok; [|assumption]. intros v0 Hv0. apply Hma; assumption.
+          * destruct (find_global (trim_bang p0) flv slv _ (globs a0)); ok_inj H;
+              (apply update_var_ok; [|assumption]; intros v0 Hv0; apply Hma; assumption).
+        + assert (Htl : Forall (fun l0 => P l0 = true) (List.tl (table_loc_list (EIndex t1 t2 l)))).
+          { destruct (table_loc_list (EIndex t1 t2 l)); [constructor|]. inversion Hll; assumption. }
+          destruct (find_global g0 flv slv _ (globs a0)); ok_inj H;
+            (apply update_var_ok; [|assumption]; intros v0 Hv0; apply Hma; assumption).
     Qed.
 
     Lemma assign_loop_ok : forall vars i es lastcall s s',
@@ -493,7 +515,7 @@ Section Locs.
         * (* EIndex *)
           apply andb_prop in He. destruct He as [He He2]. apply andb_prop in He. destruct He as [_ He1].
           inv_bind H. inv_bind H. injection H as <- <- <-.
-          split; [eapply Hnil; [exact He2| |exact Hb0]; eapply Hnil; [exact He1|exact Hs|exact Hb] | split; [exact I | exact Hpv]].
+          split; [apply note_G_ok; [exact He2|]; eapply Hnil; [exact He2| |exact Hb0]; eapply Hnil; [exact He1|exact Hs|exact Hb] | split; [exact I | exact Hpv]].
         * (* ECall *)
           apply andb_prop in He. destruct He as [He Hargs]. apply andb_prop in He. destruct He as [_ Hp].
           inv_bind H. inv_bind H. injection H as <- <- <-.
